@@ -453,6 +453,10 @@ pub(crate) async fn exec_model_trace(t: Trace, prop: &'static str) -> Outcome {
                         if stim_conn != Some(c) {
                             props |= P02 | P06;
                         }
+                        if stim_verbs.iter().any(|v| v == "OPEN") && t.config.max_connections.is_some() && w.conns[c].all_lines.is_empty() {
+                            // a connection refused although a slot should be free
+                            props = P19;
+                        }
                         discs.push(Disc { kind: DKind::UnexpectedClose, c, exp: None, obs: None, props });
                     } else if !o.eof && !alive {
                         let mut props = P06 | P19;
